@@ -30,7 +30,7 @@ TREE = OBJ(f"{TT}::TokenTree", public_key=PK, elements=DICTOBJ(BYTES, TOKEN, whe
 DB = EFFECT("database", get_attestations_over={"returns": EXPR("['ATT'][:n_att]")}, get_authority={"returns": EXPR("auth")},
             insert_attestation={}, insert_token={}, insert_metadata={})
 PSEUDO = OBJ(f"{IM}::PseudonymManager", tree=TREE, database=DB)
-MYPEER = OBJ("ipv8/peer.py::Peer", public_key=PK)
+MYPEER = OBJ("ipv8/peer.py::Peer", public_key=PK, key=ANY)
 META = OBJ("ipv8/attestation/identity/metadata.py::Metadata", token_pointer=BYTES_N(32), serialized_json_dict=BYTES)
 
 
@@ -108,12 +108,13 @@ def content_hash_at(pseudonym, metadata):
 # the attest message is sent only after: solicited, disclosure substantiated, should_sign
 
 CRED = OBJ("ipv8/attestation/identity/database.py::Credential", metadata=META)
-PSEUDO2 = OBJ(f"{IM}::PseudonymManager", tree=OBJ(f"{TT}::TokenTree", public_key=PK, elements=EXPR("{}")), database=DB,
+PSEUDO2 = OBJ(f"{IM}::PseudonymManager", tree=OBJ(f"{TT}::TokenTree", public_key=PK, elements=EXPR("{dtok._hash: dtok}")), database=DB,
               get_credentials=CALLABLE("get_credentials", returns=EXPR("[cred][:n_cred]"), raises=()),
               create_attestation=CALLABLE("create_attestation", returns=EXPR("att"), raises=()),
               add_attestation=CALLABLE("add_attestation", returns=BOOL, raises=()))
 contract(f"{IC}::IdentityCommunity._received_disclosure_for_attest", "attest-send-guard",
          vars={"h1": BYTES_N(32), "n1": STR, "t1": REAL, "k1": BYTES, "peerkey": BYTES, "cred": CRED,
+               "dtok": TOKEN,       # the disclosed chain holds one token; its content hash may or may not be the registered attribute
                "att": OBJ("ipv8/attestation/identity/attestation.py::Attestation", metadata_pointer=BYTES_N(32), signature=BYTES),
                "pseudo": PSEUDO2, "correct": BOOL, "ss": BOOL,
                "self": OBJ(f"{IC}::IdentityCommunity", known_attestation_hashes=EXPR("mk_known(n_known, h1, h1, (n1, t1, k1, None), None)"),
@@ -123,6 +124,7 @@ contract(f"{IC}::IdentityCommunity._received_disclosure_for_attest", "attest-sen
                                                ec=OBJ("contracts/common.py::RustPublicKeyModel", bin=EXPR("peerkey")))),
                "disc": EXPR("(b'', b'', b'', b'')")},
          instances=[{"n_known": k, "n_cred": c} for k in (0, 1) for c in (0, 1)],
+         requires=["valid_utf8(cred.metadata.serialized_json_dict)"],      # should_sign (stubbed here) has json-decoded it
          call="self._received_disclosure_for_attest(peer, disc)", raises=[],
          stubs={f"{IC}::IdentityCommunity.should_sign": {"event": "should_sign", "returns": "ss"},
                 "ipv8/lazy_community.py::EZPackOverlay.ez_send": {"event": "ez_send"}},
@@ -132,6 +134,7 @@ contract(f"{IC}::IdentityCommunity._received_disclosure_for_attest", "attest-sen
                     "substantiate": ["n_known == 1 and k1 == peerkey"],
                     "create_attestation": ["ss and correct", "args[0] is cred.metadata"]},
          ensures=["implies(n_known == 0 or k1 != peerkey, len(trace()) == 0)"],
+         covers=["n_known == 0 or n_cred == 0 or len(calls('create_attestation')) == 1"],
          bounded="consent table with 0..1 registrations, 0..1 disclosed credentials",
          note="an attestation is created and sent only for a solicited, substantiated disclosure that should_sign accepts")
 
@@ -210,3 +213,25 @@ contract(f"{IDB}::IdentityDatabase.get_authority", "get_authority-returns-the-ke
          on_effect={"cursor.execute": ["args[1] == (att.signature,)", "'authority_key' in args[0] and 'Attestations' in args[0]"]},
          ensures=["result == K"],
          note="one key (bytes), selected by the attestation's signature - not a collection of keys")
+
+# ---------------------------------------------------------------------------------------------------------------------
+# "the disclosed chain verifies": the verdict of substantiate is the CONJUNCTION over the token chain and every disclosed attestation
+# (the attest-send guard above consumes exactly this verdict)
+for _n in (0, 1, 2):
+    _ks = ["ak1", "ak2"][:_n]
+    _auth = " + ".join(f"be(len({k}), 2) + {k}" for k in _ks) if _ks else "b''"
+    contract(f"{IM}::IdentityManager.substantiate", f"substantiate.verdict-is-a-conjunction[{_n} attestations]",
+             vars={"pk": PK, "toks": BYTES, "atts": BYTES, "t_ok": BOOL, **{k: BYTES for k in _ks},
+                   "pseudo": OBJ(f"{IM}::PseudonymManager", tree=OBJ(f"{TT}::TokenTree", public_key=PK, elements=EXPR("{}")), database=DB),
+                   "self": OBJ(f"{IM}::IdentityManager", crypto=EXPR("ECCrypto()"), pseudonyms=EXPR("{}"))},
+             requires=[f"uf_bool('valid_public_key', {k}) and 0 < len({k}) < 65536" for k in _ks],
+             call=f"self.substantiate(pk, b'', toks, atts, {_auth})", raises=[],
+             stubs={f"{IM}::IdentityManager.get_pseudonym": {"returns": "pseudo", "note": "pseudonym lookup / creation"},
+                    f"{TT}::TokenTree.unserialize_public": {"event": "load_tokens", "returns": "t_ok", "note": "C16: every token offered, verdict = all accepted"},
+                    f"{IM}::PseudonymManager.add_attestation": {"event": "add_att", "returns": "uf_bool('att_ok', public_key.key_to_bin())",
+                                                               "note": "verifies the attestation under the authority key and stores it (insert contract in C19)"},
+                    "ipv8/attestation/identity/attestation.py::Attestation.unserialize": {"returns": "any", "note": "attestation decoding"}},
+             ensures=[f"result[0] == (t_ok and all(uf_bool('att_ok', k) for k in [{', '.join(_ks)}]))", "result[1] is pseudo",
+                      f"len(calls('add_att')) == {_n}", "len(calls('load_tokens')) == 1"],
+             bounded=f"{_n} disclosed attestations (keys, token blob and attestation blob symbolic)",
+             note="one failing token or attestation anywhere in the disclosure makes the whole disclosure incorrect")
